@@ -1157,3 +1157,70 @@ def c14_boundscheck(kernel, data=None, nodata=-3000, lam=10.0, p=0.9, robust=Fal
     except IndexError as e:
         return {"violates": True, "why": f"IndexError under NUMBA_BOUNDSCHECK=1: {e}"[:200]}
     return {"violates": False, "why": "no replay for this kernel"}
+
+
+# ------------------------------------------------------------------ C11
+def c11_calendar(y, m):
+    import calendar
+    import datetime as dt
+    return {"dim": calendar.monthrange(y, m)[1] if y >= 1 else None, "ordinal": dt.date(y, m, 1).toordinal() - 1}
+
+
+def c11_dekad(kind, y=1, m=1, d=1, h=0, mi=0, s=0, us=0, raw=36, n=0, raw2=36):
+    import calendar
+    import datetime as dt
+    from hdc.algo.dekad import Dekad
+    probs = []
+
+    def chk(c, msg):
+        if not c:
+            probs.append(msg)
+    try:
+        if kind in ("from_date", "accessor"):
+            inst = dt.datetime(y, m, d, h, mi, s, us)
+            D = Dekad(inst)
+            idx = 1 if d <= 10 else 2 if d <= 20 else 3
+            chk(D.raw == 36 * y + 3 * (m - 1) + idx - 1, "raw")
+            chk((D.year, D.month, D.idx, D.yidx) == (y, m, idx, 3 * (m - 1) + idx), "fields")
+            chk(D.start_date <= inst, "start <= instant")
+            if not (y == 9999 and m == 12 and d >= 21):
+                chk(inst <= D.end_date, "instant <= end")
+            chk(Dekad(dt.date(y, m, d)).raw == D.raw, "date vs datetime")
+            if kind == "accessor":
+                import numpy as np
+                import xarray as xr
+                import hdc.algo  # noqa
+                if 1678 <= y <= 2261:
+                    t = xr.DataArray(np.array([np.datetime64(inst)], dtype="datetime64[ns]"), dims=("time",), name="time")
+                    t = t.assign_coords(time=t)
+                    chk(int(t.time.dekad.idx.values[0]) == D.idx and int(t.time.dekad.yidx.values[0]) == D.yidx
+                        and int(t.time.dekad.raw.values[0]) == D.raw and int(t.time.dekad.linspace.values[0]) == D.yidx - 1, "accessor")
+        elif kind == "from_raw":
+            D = Dekad(int(raw))
+            yy, mm, ii = D.year, D.month, D.idx
+            chk(1 <= yy <= 9999 and 1 <= mm <= 12 and 1 <= ii <= 3 and D.day == 1 + 10 * (ii - 1), "field ranges")
+            chk(36 * yy + 3 * (mm - 1) + ii - 1 == raw, "raw round trip")
+            chk(Dekad(D.start_date).raw == raw, "start date round trip")
+            lab = str(D)
+            chk(len(lab) == 8 and lab[:4].isdigit() and lab[4:6].isdigit() and lab[6] == "d" and lab[7] in "123", f"label layout {lab!r}")
+            chk(Dekad(lab).raw == raw, "label round trip")
+            if raw < 36 * 9999 + 35:
+                dim = calendar.monthrange(yy, mm)[1]
+                chk(D.ndays == (10 if ii < 3 else dim - 20), f"ndays {D.ndays}")
+                chk(D.end_date + dt.timedelta(microseconds=1) == (D + 1).start_date, "abutment")
+                last = 10 if ii == 1 else 20 if ii == 2 else dim
+                chk(D.end_date == dt.datetime(yy, mm, last, 23, 59, 59, 999999), "end of dekad")
+        elif kind == "arith":
+            D, E = Dekad(int(raw)), Dekad(int(raw2))
+            chk((D + n) - D == n, "(d+n)-d")
+            chk((D + n) - n == D, "(d+n)-n")
+            chk(n + D == D + n, "radd")
+            chk(E - D == raw2 - raw, "difference")
+            chk((D < E, D <= E, D > E, D >= E, D == E, D != E) == (raw < raw2, raw <= raw2, raw > raw2, raw >= raw2, raw == raw2, raw != raw2), "ordering")
+            if raw == raw2:
+                chk(hash(D) == hash(E), "hash")
+            chk((raw < raw2) == (D.start_date < E.start_date), "chronological")
+            chk((D == int(raw2)) == (raw == raw2), "eq with int")
+    except Exception as e:  # noqa
+        probs.append(f"raised {type(e).__name__}: {e}"[:200])
+    return {"violates": bool(probs), "why": probs}
